@@ -1,0 +1,15 @@
+//go:build verif
+
+package packet
+
+// VerifAccumulatorState exposes the private state of an accumulator created by NewAccumulator
+// (state machine position, buffered byte count, stored packet count) so that an external
+// explicit-state explorer can build canonical state keys. Verification hook: compiled only with
+// the "verif" build tag, never part of the normal build.
+func VerifAccumulatorState(a Accumulator) (state, bufLen, packets int, ok bool) {
+	acc, isAcc := a.(*accumulator)
+	if !isAcc {
+		return 0, 0, 0, false
+	}
+	return acc.state, acc.buf.Len(), len(acc.packets), true
+}
